@@ -7,8 +7,8 @@
        (any text), every list of row groups/statistics, both settings of pandas_nulls, with or without a
        categories request: a data column allocated for the predicted dtype has the predicted dtype.
        (repaired tree; the pinned rule for zoned INT96 columns is refuted: C17_int96_tz_refuted)
-     - C17_index_fixpoint_partial / C17_masked_index_refuted: the same for index columns EXCEPT masked dtypes,
-       which _pre_allocate turns into int64 (open finding).
+     - C17_index_fixpoint: the same for index columns (repaired tree; the pinned tree turned a masked dtype into
+       int64: C17_masked_index_refuted).
      - C17_null_evidence: a plain numpy int/bool prediction that was not taken on trust from the pandas metadata
        means every non-empty row group has statistics with null_count = 0 at the field's position (repaired tree;
        the pinned tree also accepted an ABSENT null_count: C17_absent_null_count_refuted, and trusted the codes' dtype
@@ -31,18 +31,19 @@ Theorem C17_realise_fixpoint : forall has_md pn se md i rgs as_cat d,
 Proof. exact realise_fixpoint. Qed.
 Print Assumptions C17_realise_fixpoint.
 
-Theorem C17_index_fixpoint_partial : forall has_md pn se md i rgs as_cat d,
+Theorem C17_index_fixpoint : forall has_md pn se md i rgs as_cat d,
   (se_type se < 8)%N ->
-  predict pinned has_md pn se md i rgs as_cat = ROk d -> masked d = false ->
+  predict pinned has_md pn se md i rgs as_cat = ROk d ->
   realise_index (md_tzflag md) d = d.
-Proof. exact realise_index_fixpoint_partial. Qed.
-Print Assumptions C17_index_fixpoint_partial.
+Proof. exact realise_index_fixpoint. Qed.
+Print Assumptions C17_index_fixpoint.
 
+(* the pinned tree allocated an index column of a masked dtype (Int8..UInt64, boolean) as int64 *)
 Theorem C17_masked_index_refuted :
   exists has_md pn se md i rgs d,
     (se_type se < 8)%N /\
-    predict pinned has_md pn se md i rgs false = ROk d /\ realise_index (md_tzflag md) d <> d.
-Proof. exact masked_index_refuted. Qed.
+    predict pinned has_md pn se md i rgs false = ROk d /\ realise_index_old (md_tzflag md) d <> d.
+Proof. exact masked_index_old_refuted. Qed.
 Print Assumptions C17_masked_index_refuted.
 
 Theorem C17_int96_tz_refuted :
